@@ -69,4 +69,6 @@ def extract_witness(ctx, name, lib_rs):
     extract(d, out, extra=())
     c = facts.load(out, name)
     c.siblings = [ctx.cad, ctx.mac]
+    from . import symb
+    symb.set_crates([ctx.cad, ctx.mac, c])
     return c
